@@ -186,7 +186,14 @@ class Compiler:
         )
 
     def graph_node(self, node: dict) -> Any:
-        inner = self.graph(node["graph"])
+        if node.get("share"):
+            # the SAME inner Graph object mounted under several node names (one sub-graph template used several times)
+            shared = self.__dict__.setdefault("_shared_graphs", {})
+            if node["share"] not in shared:
+                shared[node["share"]] = self.graph(node["graph"])
+            inner = shared[node["share"]]
+        else:
+            inner = self.graph(node["graph"])
         gn = inner.as_node(name=node["name"])
         touch = node.get("touch") or []
         self._touch(gn, touch)
@@ -252,10 +259,18 @@ class Compiler:
         else:
             graph = hg.Graph(nodes, name=g.get("name"))
         touch = bool(g.get("touch"))
+        sib = bool(g.get("siblings"))
         if touch:
             self._touch_graph(graph)
+        if sib:
+            self._decoys(graph, exclude=g.get("bind") or {})
         if g.get("bind"):
+            base = graph
             graph = graph.bind(**g["bind"])
+            if sib:
+                # a sibling derived from the same parent AFTER the graph under test, binding the same names to other values
+                self._decoys(base, same=g["bind"])
+                self._decoys(graph, same=g["bind"])
             if touch:
                 self._touch_graph(graph)
         if g.get("entrypoints"):
@@ -266,7 +281,29 @@ class Compiler:
             graph = graph.select(*g["select"])
             if touch:
                 self._touch_graph(graph)
+        if sib:
+            self._decoys(graph, exclude=g.get("bind") or {}, same=g.get("bind") or {})
         return graph
+
+    @staticmethod
+    def _decoys(graph: Any, *, exclude: dict | None = None, same: dict | None = None) -> None:
+        """Derive throw-away sibling graphs from ``graph`` (bind / unbind / select / with_entrypoint return NEW graphs): a parameter
+        sweep over one base graph. Nothing a sibling was given may show up in ``graph`` or in graphs derived from it later."""
+        DECOY = -777
+        try:
+            names = [n for n in graph.inputs.all if n not in (exclude or {}) and n not in (same or {})]
+        except Exception:  # noqa: BLE001
+            names = []
+        for kw in ([{n: DECOY} for n in names[:2]] + ([{k: DECOY for k in same}] if same else [])):
+            try:
+                graph.bind(**kw)
+            except Exception:  # noqa: BLE001 - a rejected decoy is no decoy
+                pass
+        if same:
+            try:
+                graph.unbind(*list(same)[:1])
+            except Exception:  # noqa: BLE001
+                pass
 
     @staticmethod
     def _edges(nodes: list) -> list:
